@@ -375,9 +375,13 @@ fn utf8_valid_prefix(s: &[u8], n: usize, max: usize) -> usize {
 #[kani::proof]
 #[kani::unwind(8)]
 fn c02_string_u8() {
-    const N: usize = 4; // BOUNDED: length byte + 3 data bytes (from_utf8 is expensive in CBMC)
-    let (len, off) = any_len_off(N, 1);
-    let b = sym_slice(len, 1, off, N);
+    const N: usize = 5; // BOUNDED: length byte + 4 data bytes (from_utf8 is expensive in CBMC)
+    // a sub-slice of a fixed symbolic array (cheaper for CBMC than a heap object of symbolic size; out-of-slice accesses
+    // of the string validator are covered by the C01 harnesses)
+    let backing: [u8; N] = kani::any();
+    let len: usize = kani::any();
+    kani::assume(len <= N);
+    let b = &backing[..len];
     let r = FlatString::<u8>::validate(b);
     if len < 1 { assert!(matches!(r, Err(ref e) if e.kind == ErrorKind::InsufficientSize), "C02,C06: short input must be InsufficientSize"); return; }
     let n = b[0] as usize;
@@ -391,5 +395,48 @@ fn c02_string_u8() {
         let v = FlatString::<u8>::from_bytes(b).unwrap();
         assert!(v.len() == n && v.len() <= v.capacity(), "C02: len/capacity of the accepted view differ from the reference");
         assert!(v.as_str().len() == n, "C02: as_str() differs from the reference decoding");
+    }
+}
+
+/// FlexVec with UNSIZED items: validation must apply the item type's own minimum-size gate to every payload (C01: no panic
+/// inside the nested FlatVec mapping, no read past the slice), and an accepted image can be walked safely
+#[kani::proof]
+#[kani::unwind(8)]
+fn c01_flex_vec_u8() {
+    const N: usize = 5; // BOUNDED: buffer <= 5 bytes
+    let (len, off) = any_len_off(N, 1);
+    let b = sym_slice(len, 1, off, N);
+    if let Ok(v) = FlexVec::<FlatVec<u8, u8>, u8>::from_bytes(b) {
+        let mut total = 0usize;
+        let mut k = 0;
+        for item in v.iter() {
+            assert!(item.len() <= item.capacity(), "C02: nested item with len > capacity in an accepted FlexVec");
+            let s = item.as_slice();
+            if !s.is_empty() { total += s[s.len() - 1] as usize; }
+            k += 1;
+            if k >= N { break; }
+        }
+        assert!(v.size() <= len, "C05: size() exceeds the mapped bytes");
+        let _ = total;
+    }
+}
+
+/// FlexVec with sized items wider than the slot's offset type: a payload shorter than the item must be rejected, never read
+#[kani::proof]
+#[kani::unwind(10)]
+fn c01_flex_u32_u8() {
+    const N: usize = 9; // BOUNDED: buffer <= 9 bytes (slot 4 + payload 4 + 1)
+    let (len, off) = any_len_off(N, 4);
+    let b = sym_slice(len, 4, off, N);
+    if let Ok(v) = FlexVec::<u32, u8>::from_bytes(b) {
+        let mut k = 0;
+        let mut acc = 0u32;
+        for item in v.iter() {
+            acc ^= *item; // reads 4 bytes of the payload: out of bounds if a short payload was accepted
+            k += 1;
+            if k >= N { break; }
+        }
+        let _ = acc;
+        assert!(v.size() <= len, "C05: size() exceeds the mapped bytes");
     }
 }
